@@ -97,10 +97,21 @@ deliver_hook = None
 yield_hook = None
 
 
+def _noop():
+    pass
+
+
 def process_item(item, *sketches, side=None, **kwargs):
     item = normalize(item)
     if deliver_hook is not None:
         deliver_hook(item)
+    if item.get("child") and os.environ.get("VF_REAL_SPAWN") == "1":
+        # a callback may use processes of its own (a pool, a subprocess): only done in really spawned workers
+        import multiprocessing
+
+        p = multiprocessing.get_context("fork").Process(target=_noop)
+        p.start()
+        p.join()
     if yield_hook is not None:
         yield_hook()
     if side:
